@@ -566,8 +566,17 @@ def conclude(prop, hs, results, args, seed, tb, t_start):
             unreplayed.append((h, r))
             continue
         if h.get("replay", "playback") == "log":
-            # should_panic harnesses / harnesses over a stubbed primitive have no playback test
-            violations.append((h, r, r["log"]))
+            # should_panic harnesses / harnesses over a stubbed primitive have no playback test:
+            # the CBMC log (with the failing checks) is the artefact
+            os.makedirs(CASES, exist_ok=True)
+            art = os.path.join(CASES, f"{h['prop']}-{h['name']}.log")
+            try:
+                shutil.copy(r["log"], art)
+                with open(art, "a") as f:
+                    f.write("\nfailed checks:\n" + json.dumps(r["failed_checks"], indent=1) + "\n")
+            except OSError:
+                art = r["log"]
+            violations.append((h, r, art))
             continue
         log(f"[{prop}] replaying {h['name']} natively (Kani concrete playback) ...")
         rep, case = replay(h, r)
